@@ -165,6 +165,17 @@ def run_shard(sh):
                 check_one(sh, term, w, rng.choice(FRACS), strat)
                 sh.case((term, w, strat), True)
         sh.counters['long-tail terms'] += 1
+    for i in range(2500 if quick else 200000):
+        idx += 1
+        if not sh.mine(idx):
+            continue
+        rng = V.rng_for('c04lazy', sh.seed, i)
+        term = D.lazy_body_terms(rng)
+        for w in (rng.randint(1, 12), rng.randint(10, 40), 60):
+            for strat in ('smart', 'fast'):
+                check_one(sh, term, w, rng.choice(FRACS), strat)
+                sh.case((term, w, strat), True)
+        sh.counters['lazy-body terms (align / hang bodies mixing hardline, always_break and breaks)'] += 1
     for i in range(6000 if quick else 1500000):
         idx += 1
         if not sh.mine(idx):
